@@ -177,6 +177,15 @@ def stopsRemote (m : Mon) : Op → Bool
     | none => false
   | _ => false
 
+/-- may the counter's event flag be raised after `op`? (`event`, a request arriving or finishing: yes; a tick consumes
+    it) -/
+@[simp] def mayEventNext (prev : Bool) : Op → Bool
+  | .event => true
+  | .acquire _ => true
+  | .release _ => true
+  | .tick _ _ => false
+  | _ => prev
+
 def Mon.next (m : Mon) (op : Op) (o : Obs) : Mon :=
   let schema' := match op with | .schema s => some s | _ => m.schema
   let synced' := match op with
@@ -205,7 +214,7 @@ def Mon.next (m : Mon) (op : Op) (o : Obs) : Mon :=
       else match op with
         | .tick now (some _) => if o.req.isSome then (if m.contact < unixS now then unixS now else m.contact) else m.contact
         | _ => m.contact
-    mayEvent := match op with | .event => true | .tick _ _ => false | _ => m.mayEvent
+    mayEvent := mayEventNext m.mayEvent op
     mustEvent := match op with
       | .event => decide (m.prev.wkind = 2 ∨ m.prev.wkind = 3)
       | .tick _ _ => false
